@@ -105,6 +105,86 @@ pub struct AliasCase {
 pub enum Case {
     Project(Project),
     Alias(AliasCase),
+    Scenario(Scenario),
+}
+
+/// Parametrised families with hand-derived expectations for semantics the project generator's
+/// AST cannot express: guarded declarations that are NOT at the top level of a configured module
+/// (inside a style rule or a mixin) are ordinary local `!default` assignments – they never consume
+/// a `with` value and never make a variable configurable.
+#[derive(Clone, Debug, Serialize, Deserialize)]
+pub struct Scenario {
+    pub kind: u8,
+    pub n: i64,
+    pub m: i64,
+    pub k: i64,
+}
+
+fn scenario_files(s: &Scenario) -> (Vec<(String, String)>, Result<Vec<(String, String, String)>, &'static str>) {
+    let (n, m, k) = (s.n, s.m, s.k);
+    let entry = format!("@use \"lib\" with ($w: {});\n.e {{\n  seen: lib.$w;\n}}\n", n);
+    let row = |sel: &str, p: &str, v: i64| (sel.to_string(), p.to_string(), v.to_string());
+    match s.kind % 4 {
+        0 => (
+            vec![("entry.scss".into(), format!("@use \"lib\" with ($w: {});\n", n)), ("_lib.scss".into(), format!("a {{\n  $w: {} !default;\n  b: $w;\n}}\n", m))],
+            Err("the configured variable is only declared inside a style rule"),
+        ),
+        1 => (
+            vec![("entry.scss".into(), entry), ("_lib.scss".into(), format!("a {{\n  $w: {} !default;\n  b: $w;\n}}\n$w: {} !default;\nc {{\n  d: $w;\n}}\n", m, k))],
+            Ok(vec![row("a", "b", m), row("c", "d", n), row(".e", "seen", n)]),
+        ),
+        2 => (
+            vec![("entry.scss".into(), entry), ("_lib.scss".into(), format!("@mixin mx {{\n  $w: {} !default;\n  x: $w;\n}}\n$w: {} !default;\nc {{\n  @include mx;\n  d: $w;\n}}\n", m, k))],
+            Ok(vec![row("c", "x", n), row("c", "d", n), row(".e", "seen", n)]),
+        ),
+        _ => (
+            vec![("entry.scss".into(), format!("@use \"lib\" with ($w: {});\n", n)), ("_lib.scss".into(), format!("@mixin mx {{\n  $w: {} !default;\n  x: $w;\n}}\nc {{\n  @include mx;\n}}\n", m))],
+            Err("the configured variable is only declared inside a mixin"),
+        ),
+    }
+}
+
+fn check_scenario(s: &Scenario, cx: &mut Ctx) -> Verdict {
+    let (files, expect) = scenario_files(s);
+    let mut single = Single::scss("");
+    for (n, t) in &files {
+        single.files.push((n.clone(), Bytes::Text(t.clone())));
+    }
+    single.entry = Entry::Path("entry.scss".into());
+    let res = cx.compile(&single);
+    cx.class(&format!("scenario:{}", s.kind % 4));
+    cx.nontrivial(&(s.kind % 4, s.n, s.m, s.k));
+    cx.sample_nontrivial(|| json!({"scenario": s.kind % 4, "files": files}));
+    let details = json!({"files": files, "observed": res.outcome.short()});
+    match (&expect, &res.outcome) {
+        (Err(_), Outcome::Error(_)) => Verdict::Pass,
+        (Err(why), Outcome::Css(_)) => Verdict::Fail(Failure::new(
+            "C12/nested-default-consumes-configuration:accepted",
+            format!("`with` must be rejected ({}), but the project compiled", why),
+            details,
+        )),
+        (Ok(rows), Outcome::Css(c)) => {
+            let got: Vec<(String, String, String)> = css::rows(c).into_iter().map(|r| (r.selector, r.prop, r.value)).collect();
+            if &got == rows {
+                Verdict::Pass
+            } else {
+                Verdict::Fail(Failure::new(
+                    "C12/nested-default-consumes-configuration:values",
+                    "a guarded declaration inside a rule or mixin interfered with the module's configuration",
+                    json!({"expected": rows, "got": got, "files": files}),
+                ))
+            }
+        }
+        (Ok(_), Outcome::Error(e)) => Verdict::Fail(Failure::new(
+            "C12/nested-default-consumes-configuration:rejected",
+            format!("a valid configuration was rejected: {}", e.message),
+            details,
+        )),
+        _ => {
+            cx.inconclusive("abnormal");
+            Verdict::Discard
+        }
+    }
 }
 
 /// (module, module function, global alias, one well-typed argument list) — from the "Built-In
@@ -507,6 +587,8 @@ impl Prop for C12 {
         let s = prop_oneof![
             1 => project_strategy().prop_map(Case::Project),
             2 => alias_strategy().prop_map(Case::Alias),
+            // few are needed: the family is small (4 kinds x three small integers)
+            1 => (any::<u8>(), 2i64..90, 100i64..190, 200i64..290).prop_map(|(kind, n, m, k)| Case::Scenario(Scenario { kind, n, m, k })),
         ]
         .boxed();
         Some((s, tier.pick(12_000, 240_000)))
@@ -529,6 +611,7 @@ impl Prop for C12 {
         match case {
             Case::Project(p) => check_project(p, cx),
             Case::Alias(a) => check_alias(a, cx),
+            Case::Scenario(sc) => check_scenario(sc, cx),
         }
     }
     fn extra_evidence(&self, stats: &Stats) -> serde_json::Value {
